@@ -164,6 +164,11 @@ class Interp:
             for s in mod.tree.body:
                 if name in M.bound_names(s):
                     self.exec_stmt(s, env)
+            done = self.__dict__.setdefault('_patched', set())
+            for s in mod.patches.get(name, ()):
+                if id(s) not in done:
+                    done.add(id(s))
+                    self.exec_stmt(s, env)
         return env.vars.get(name, UNDEF)
 
     def _star_lookup(self, mod, star, name):
@@ -927,6 +932,14 @@ class Interp:
             self.setitem(obj, idx, v)
         elif isinstance(t, ast.Attribute):
             obj = self.eval(t.value, env)
+            if t.attr == 'shape' and isinstance(t.value, ast.Name) and numkind(obj) is not None and isinstance(v, tuple):
+                # a 0-d array is represented by its scalar: `name.shape = (..)` rebinds the name to the reshaped array
+                # (exact as long as the 0-d array has no other reference, e.g. it was just made by numpy.asarray)
+                from . import lib as _lib
+                new = _lib.nd_reshape([obj], v)
+                self.st.assumptions.add('a 0-d array reshaped in place has no other reference')
+                self.store_name(t.value.id, _lib.nd_build(self, new), env)
+                return
             self.setattr(obj, self.mangle(t.attr, env.cls), v)
         elif isinstance(t, ast.Starred):
             raise Unsupported('starred assignment')
@@ -1317,6 +1330,8 @@ class Interp:
         if g.ifs:
             raise Unsupported('filtered comprehension over a symbolic sequence')
         n_term, item_of = self.models.symbolic_iter(self, it)
+        if not z3.is_int_value(z3.simplify(n_term)) and not self.st.feasible(n_term > 0):
+            return self.st.alloc('clist', [])          # the sequence is empty on this path: the body is never evaluated
         k = z3.Int(self.st.fresh_name('ck'))
         self.assign(g.target, item_of(SV(k, 'int')), cenv)
         self.comp_index = k
